@@ -40,6 +40,14 @@ TGP0(tasks) ==
    nstarted |-> [c \in tasks |-> 0],
    startret |-> [c \in tasks |-> ""],   \* outcome of the start() call that spawned c
    starter |-> [c \in tasks |-> 0],
+   nat0 |-> [c \in tasks |-> 0],    \* native cancellations of the start() caller issued before c was spawned
+   failedFirst |-> {},              \* early-failed start() children that failed before any native cancellation of
+                                    \* their caller was issued (their error sat on the readiness future)
+   maybeLost |-> {},                \* ... whose caller's start() then ended in a native cancellation (finding F17)
+   surfaced |-> {},                 \* early-failed start() children whose error the group raised before start() returned
+   unsurfaced |-> {},               \* ... and those whose group finished without it: start() must deliver it
+   owed |-> {},                     \* children whose second started() was accepted while nothing yet shows
+                                    \* that the caller was cancelled: their start() must end in cancellation
    causes |-> [g \in {} |-> 0],     \* legitimate reasons why group g may be cancelled (count)
    gscope |-> [g \in {} |-> 0]]     \* group -> n of its cancel scope on the host's stack
 
@@ -69,7 +77,8 @@ TGApply(p, e) ==
                 bad |-> {}]
           [] e.ev = "spawn" ->
                [p |-> [p EXCEPT !.members = Put(@, e.g, @[e.g] \cup {e.c}), !.grp[e.c] = e.g,
-                                !.via[e.c] = e.via, !.starter[e.c] = e.by],
+                                !.via[e.c] = e.via, !.starter[e.c] = e.by,
+                                !.nat0[e.c] = p.s.natives[e.by]],
                 bad |-> TNames([SpawnOnlyIntoLiveGroup |-> e.g \notin p.exited])]
           [] e.ev = "taskend" ->
                LET g == p.grp[e.c]
@@ -80,6 +89,10 @@ TGApply(p, e) ==
                               /\ ~(p.via[e.c] = "start" /\ p.nstarted[e.c] = 0) IN
                [p |-> [p EXCEPT !.ended[e.c] = e.how, !.eleaves[e.c] = SeqToSet(e.leaves),
                                 !.eval[e.c] = e.val,
+                                !.failedFirst = IF e.how = "err" /\ p.via[e.c] = "start" /\ p.nstarted[e.c] = 0
+                                                   /\ p.starter[e.c] # 0
+                                                   /\ p.s.natives[p.starter[e.c]] = p.nat0[e.c]
+                                                THEN @ \cup {e.c} ELSE @,
                                 !.causes = IF isCause THEN Put(@, g, @[g] + 1) ELSE @],
                 bad |-> TNames([EndsOnce |-> p.ended[e.c] = "no"])]
           [] e.ev = "bodyexc" ->
@@ -91,15 +104,33 @@ TGApply(p, e) ==
                    callerGone == p.startret[e.c] \in {"cancelled", "native"}
                                  \/ (p.starter[e.c] # 0 /\ (EffCur(p.s, p.starter[e.c])
                                                             \/ p.s.natives[p.starter[e.c]] > 0))
+                   \* started() is silently accepted again only on a readiness future that was cancelled,
+                   \* i.e. when the caller of start() was cancelled while waiting.  The caller may by now sit
+                   \* in start()'s shielded clean-up (no pending cancellation any more, cpc = 0) and the
+                   \* cancellation may have been library-internal (no event): then the verdict is deferred
+                   \* until start() returns - it must end in cancellation.
+                   unexplained == ~first /\ e.res = "ok" /\ ~(callerGone \/ e.cpc = 1)
                IN [p |-> [p EXCEPT !.nstarted[e.c] = @ + 1,
-                                   !.startedv[e.c] = IF first THEN e.v ELSE @],
+                                   !.startedv[e.c] = IF first THEN e.v ELSE @,
+                                   !.owed = IF unexplained /\ p.startret[e.c] = "" THEN @ \cup {e.c} ELSE @],
                    bad |-> TNames([FirstStartedAccepted |-> first => e.res = "ok",
-                                   SecondStartedIsError |-> (~first /\ e.res = "ok") => (callerGone \/ e.cpc = 1)])]
+                                   SecondStartedIsError |-> unexplained => p.startret[e.c] = ""])]
           [] e.ev = "startret" ->
                LET c == e.c
                    childFailedEarly == p.ended[c] # "no" /\ p.nstarted[c] = 0
                    g == p.grp[c]
                    cl == [ReturnsStartedValue |-> (e.res = "ok") => (p.nstarted[c] > 0 /\ e.val = p.startedv[c]),
+                          SecondStartedIsError |-> c \in p.owed => e.res \in {"cancelled", "native"},
+                          \* the error of an early-failed child surfaces exactly once: not from start() if its
+                          \* group has raised it already, and from start() if its group finished without it
+                          \* (only a native Task.cancel() of the caller can still replace it, asyncio semantics)
+                          NoDuplicates |-> c \in p.surfaced => e.res # "err",
+                          NoneDropped |-> c \in p.unsurfaced => e.res \in {"err", "native"},
+                          \* Known finding F17: the child's error was on the readiness future when the caller
+                          \* of start() was cancelled natively (Task.cancel()) before it resumed: start() raises
+                          \* CancelledError and the error is never retrieved.  Certain here when the group has
+                          \* finished without it; otherwise decided when the group finishes (maybeLost).
+                          StartErrorLostOnNativeCancelOfCaller |-> ~(c \in p.unsurfaced /\ e.res = "native"),
                           ChildErrorToCaller |->
                               (e.res = "err") =>
                                  (childFailedEarly /\
@@ -119,14 +150,28 @@ TGApply(p, e) ==
                                  /\ p.s.natives[g \div 10] = 0
                                  /\ ~EffAt(p.s, g \div 10, Pos(p.s, g \div 10, p.gscope[g])))
                                  => e.gcalled = 0]
+                   maybe == e.res = "native" /\ childFailedEarly /\ p.ended[c] = "err" /\ c \in p.failedFirst
+                            /\ c \notin p.surfaced /\ c \notin p.unsurfaced
                IN [p |-> [p EXCEPT !.startret[c] = e.res,
+                                   !.maybeLost = IF maybe THEN @ \cup {c} ELSE @,
                                    !.routed = IF e.res = "err" THEN @ \cup {c} ELSE @],
                    bad |-> TNames(cl)]
           [] e.ev = "tgexit" ->
                LET g == e.g
                    mem == p.members[g]
-                   expected == p.body[g] \cup UNION {p.eleaves[c] : c \in {m \in mem : p.ended[m] = "err" /\ m \notin p.routed}}
+                   \* A child spawned by start() that failed before calling started() delivers its error to
+                   \* the caller of start() - or to the group, if that caller was cancelled meanwhile.  When
+                   \* the group finishes before that start() call has returned (caller in another task),
+                   \* the observer cannot know yet which: the leaf may be in the group, and whichever way it
+                   \* went is checked when start() returns (exactly once: surfaced / unsurfaced).
+                   unresolved == {m \in mem : p.via[m] = "start" /\ p.nstarted[m] = 0 /\ p.ended[m] = "err"
+                                               /\ p.startret[m] = ""}
+                   lostCand == mem \cap p.maybeLost
+                   expected == p.body[g] \cup UNION {p.eleaves[c] : c \in {m \in mem : p.ended[m] = "err" /\ m \notin p.routed
+                                                                                  /\ m \notin unresolved /\ m \notin lostCand}}
+                   may == UNION {p.eleaves[c] : c \in unresolved \cup lostCand}
                    got == SeqToSet(e.leaves)
+                   inGroup == {m \in unresolved : p.eleaves[m] # {} /\ p.eleaves[m] \subseteq got}
                    hs == SeqToSet(e.handles)
                    statusOk(h) ==
                       LET how == p.ended[h.c] IN
@@ -143,14 +188,22 @@ TGApply(p, e) ==
                           \* a host that is cancelled natively (Task.cancel()) re-raises that
                           \* CancelledError as asyncio demands; errors then travel as its context only
                           NoneDropped |-> (e.raised # "native") => expected \subseteq got,
-                          NoneInvented |-> got \subseteq expected,
-                          NoDuplicates |-> Len(e.leaves) = Cardinality(got),
+                          NoneInvented |-> got \subseteq expected \cup may,
+                          \* known finding F17 (see startret): the error did not reach the group either
+                          StartErrorLostOnNativeCancelOfCaller |->
+                              \A m \in lostCand : p.eleaves[m] \subseteq got,
+                          \* client-raised errors carry unique names; the library's own RuntimeErrors (second
+                          \* started(), child exited without started()) are distinct objects with one name
+                          NoDuplicates |-> LET named == SelectSeq(e.leaves, LAMBDA x : x # "RuntimeError")
+                                           IN Len(named) = Cardinality(SeqToSet(named)),
                           NoCancelLeaves |-> "CANCEL" \notin got,
-                          NoErrorNoRaise |-> (expected = {}) => e.raised \in {"none", "cancel", "native"},
+                          NoErrorNoRaise |-> (expected \cup may = {}) => e.raised \in {"none", "cancel", "native"},
                           ErrorsRaiseGroup |-> (expected # {} /\ e.raised # "native") => e.raised = "group",
                           CancelOnlyPassesThrough |->
                               (e.raised = "cancel") => EffCur(ps, e.t)]
-               IN [p |-> [p EXCEPT !.exited = @ \cup {g}, !.s = ps], bad |-> TNames(cl)]
+               IN [p |-> [p EXCEPT !.exited = @ \cup {g}, !.s = ps,
+                                   !.surfaced = @ \cup inGroup, !.unsurfaced = @ \cup (unresolved \ inGroup)],
+                   bad |-> TNames(cl)]
           [] OTHER ->
                LET r == ScopeApply(p.s, e) IN [p |-> [p EXCEPT !.s = r.p], bad |-> r.bad]
   IN [p |-> base.p,
